@@ -438,7 +438,7 @@ func c17bBody(env *simrt.Env) {
 	etFiles, _ := filepath.Glob(filepath.Join(basePath, "*", "*", "*external_trigger*"))
 	for _, f := range etFiles {
 		if st, err := os.Stat(f); err == nil && st.Size() > 0 {
-			simrt.Hit("external-trigger-written")
+			simrt.Hit("external-trigger-written:" + strings.ToLower(strings.TrimSuffix(srcName, "SOURCE")))
 		}
 	}
 	sample := map[string]interface{}{"source": srcName, "channels": nchan, "requests": nops, "raw_blocks_requested": len(rawNames), "raw_blocks_completed": len(w.rawDone),
